@@ -427,14 +427,14 @@ std::string one(
       }
       return fp::phrase_parse_string(_parser, std::move(_input), _skipper);
     }()};
-    // the result (every failure; every fourth success, chosen by the input) travels through a special member of
+    // the result (one input in ten, chosen by the input itself, which keeps the exhaustive enumerations fast) travels through a special member of
     // either<error<Ch>, T>, the error through one of error<Ch>: value AND fatal flag are values (c02_route.hpp)
     std::string mm{};
-    bool const routed{res0.has_failure() || route % 4U == 0U};
+    bool const routed{route % 10U == 0U};
     fp::result<Ch, res_t> const res{
         routed ? c02route::routed_result<Ch, res_t>(
                      mm,
-                     route / 4U,
+                     route / 10U,
                      res0,
                      [](res_t const &_v)
                      {
@@ -456,7 +456,8 @@ std::string one(
       tp(res.get_success_unsafe(), out);
       return out + mm;
     }
-    if (c02route::routed_error<Ch>(mm, route / 4U, res.get_failure_unsafe()).is_fatal())
+    if (routed ? c02route::routed_error<Ch>(mm, route / 10U, res.get_failure_unsafe()).is_fatal()
+               : res.get_failure_unsafe().is_fatal())
     {
       ++_counts.fatal;
       return "fatal" + mm;
